@@ -194,6 +194,32 @@ fn main() {
             }
         }
     }
+    // rounded rectangles with ELLIPTICAL corners: narrow tall / flat wide quadrants, left and right (top and bottom)
+    // corners that differ only in one radius, corners as wide as the shape - on narrow, tall, flat and medium rectangles,
+    // thin strokes of every alignment, stroke only / fill only / both
+    {
+        let rset: [(u32, u32); 9] = [(0, 0), (1, 6), (2, 9), (4, 9), (3, 12), (3, 8), (2, 6), (9, 2), (12, 3)];
+        let sizes: [(u32, u32); 9] = [(12, 30), (24, 16), (4, 20), (6, 24), (1, 14), (2, 15), (30, 5), (16, 16), (7, 40)];
+        let mut n = 0usize;
+        for &(w, h) in &sizes {
+            for (ia, a) in rset.iter().enumerate() {
+                for (ib, b) in rset.iter().enumerate() {
+                    // left / right pairs, top / bottom pairs, one odd corner
+                    for (kq, radii) in [[*a, *b, *b, *a], [*a, *a, *b, *b], [*a, *b, *a, *b], [*a, *a, *a, *b]].iter().enumerate() {
+                        n += 1;
+                        if !th && (n + ia + 2 * ib) % 3 != 0 {
+                            continue;
+                        }
+                        let sw = [1u32, 2, 4, 1, 3][(n / 3) % 5];
+                        let al = ((n / 7) % 3) as u32;
+                        let (f, sc) = [(col.fill, col.stroke), (-1, col.stroke), (col.fill, -1), (col.fill, col.fill)][(n / 5 + kq) % 4];
+                        let shape = json!({"k":"rrect","r":[3, 2, w, h],"radii":[[radii[0].0, radii[0].1], [radii[1].0, radii[1].1], [radii[2].0, radii[2].1], [radii[3].0, radii[3].1]]});
+                        run_case(&mut rec, &json!({"shape": shape, "style": style_desc(f, sc, sw, al)}));
+                    }
+                }
+            }
+        }
+    }
     // seeded larger shapes
     let nseed = if th { 20000 } else { 800 };
     for _ in 0..nseed {
